@@ -3,6 +3,10 @@ import struct
 from framework import Case
 
 PROP = 'C18'
+# tools/rs2lean_collections.py regenerates lean/DcVerif/Gen/Collections.lean from the default methods' current source;
+# Props/C18Gen.lean proves every generated definition equal to the hand model the C18 theorems are about
+TRANSLATORS = ['collections']
+EXTRA_THEOREM_MODULES = ['DcVerif.Props.C18Gen']
 BUILDS = ['safe']
 RULE = ('three case families on a Vec: (a) 0–8 assumptions whose function reads its own bit of the integer data value, histories of '
         '1–40 verify(i, d) / verify_all(d) calls, every aggregate, filter and flag dumped after every call; (b) inferences '
